@@ -3,6 +3,7 @@ from . import build as B
 from .common import *
 from .pool import run_batch, plan
 from .report import Report
+from . import hang
 
 LEVELS = {}
 
@@ -144,7 +145,95 @@ def run_C13(tier, seed):
                   assumptions=["only valid sub-ranges are generated"])
 
 
-PROPS = {"C01": run_C01, "C02": run_C02, "C03": run_C03, "C10": run_C10, "C11": run_C11, "C12": run_C12, "C13": run_C13,
+LAB_RULE = ("specimens built from the seed: four ~2-3 KB containers (OneFile zstd, OneFile uncompressed, TwoFiles lz4, NoConcat lzma; raw and "
+            "compressed clusters, variants, plain and indexed value stores, two indexes) and a medium one (1103 contents so that the content "
+            "table exceeds 4 KiB and is read through mmap, 3 clusters incl. multi-MiB compressed ones, entry store > 4 KiB). Damage: "
+            "single-byte XOR with 0x01/0x80/0xff (quick: every byte of the first specimen + 1/4 of the others + k positions per named structure "
+            "of the medium one; thorough: EVERY byte x 3 masks of the small specimens), 2-8 byte multi-flips inside one pack, zeroed / "
+            "overwritten ranges")
+
+
+def lab_crash_sig(c):
+    d = c.desc or {}
+    return {"op": (d.get("damage") or {}).get("op"), "structure": d.get("structure")}
+
+
+def run_C04(tier, seed):
+    rep = Report("C04", tier, seed, "fault_enumeration",
+                 LAB_RULE + "; C04 restricts positions to bytes the independent decoder's coverage map attributes to a pack's hashed "
+                 "range [0, checkInfoPos) or its check block, excluding the manifest's masked location bytes. Oracle: after the damage, "
+                 "Container::check, the ContainerPack::check of the file holding the pack (tools::open_pack) and the pack's own check must "
+                 "not answer Ok(true) (false / Err / open failure are fine; a crash counts as 'no success' and is C06's subject). Plus the "
+                 "pristine clause: every specimen and a set of freshly generated containers (3 packagings x all codecs) must check true. "
+                 "Non-trivial = the damage changed >= 1 covered byte. Distinct = (specimen, file, damage).",
+                 ["which bytes a checksum covers comes from the independent decoder (harness/src/indep.rs)"])
+    for profile in ("debug", "release"):
+        b = B.build(profile)
+        total = plan(b, "C04", tier)
+        cases, errors = run_batch(b, "C04", tier, seed, profile, total, timeout=60, extra_args=["--case-timeout", "20"])
+        rep.add_cases(cases, on_crash="held")
+        rep.errors += errors
+        rep.obs_inc(f"damage_cases_run.{profile}", len(cases))
+        totalp = plan(b, "C04P", tier)
+        cases, errors = run_batch(b, "C04P", tier, seed, profile, totalp, timeout=120)
+        rep.add_cases(cases)
+        rep.errors += errors
+        rep.obs_inc(f"pristine_cases_run.{profile}", len(cases))
+    rep.exhaustive = (tier == "thorough")
+    rep.note("exhaustive_scope", "thorough: every covered byte x 3 masks of the four small specimens; sampled elsewhere" if tier == "thorough" else "sampled")
+    return rep.finish()
+
+
+def run_C05(tier, seed):
+    rep = Report("C05", tier, seed, "fault_enumeration",
+                 LAB_RULE + ", truncation at structure boundaries +-1 and sampled lengths (thorough: every length of the small specimens), "
+                 "appended garbage, replacement by non-jubako files; at ANY file position. Oracle: item-wise comparison of the reader's dump "
+                 "(pack list, index windows, every entry's variant and property values, content sizes and blake3) with the pristine dump of "
+                 "the same file: every structural item is identical or an error; content bytes may differ only if Container::check() is not "
+                 "Ok(true). Crashes are C06's subject (counted as 'no silent difference'). Non-trivial = >= 1 byte of a named structure "
+                 "changed. Distinct = (specimen, file, damage).",
+                 ["the pristine dump of the very same file (same uuids) is the reference"])
+    for profile in ("debug", "release"):
+        b = B.build(profile)
+        total = plan(b, "C05", tier)
+        cases, errors = run_batch(b, "C05", tier, seed, profile, total, timeout=60, extra_args=["--case-timeout", "20"])
+        rep.add_cases(cases, on_crash="held")
+        rep.errors += errors
+        rep.obs_inc(f"damage_cases_run.{profile}", len(cases))
+    rep.exhaustive = (tier == "thorough")
+    rep.note("exhaustive_scope", "thorough: every byte x 3 masks and every truncation length of the four small specimens" if tier == "thorough" else "sampled")
+    return rep.finish()
+
+
+def run_C06(tier, seed):
+    rep = Report("C06", tier, seed, "fault_enumeration",
+                 LAB_RULE + ", truncations, appended garbage, non-jubako files (empty, 3/4/10/63/64/200/5000 bytes, text); per case the full "
+                 "dump and all checks run so that lazy paths (cluster decode, value stores, mmap) are entered, in debug AND release. Oracle = "
+                 "process fate: a panic caught on any item (site + normalised message recorded by the panic hook), a worker death by signal "
+                 "(SIGABRT from the decompression pool, SIGSEGV/SIGBUS), or a hang confirmed by re-running the case alone for 40 s with two "
+                 "CPU samples and a gdb stack. Non-trivial = >= 1 byte of a named structure changed (or length changed). Distinct = "
+                 "(specimen, file, damage).",
+                 ["'blocks forever' is decided as: still running alone after the long budget with a thread parked in a wait or spinning",
+                  "files re-checksummed by an adversary are not generated"])
+    for profile in ("debug", "release"):
+        b = B.build(profile)
+        total = plan(b, "C06", tier)
+        cases, errors = run_batch(b, "C06", tier, seed, profile, total, timeout=90, extra_args=["--case-timeout", "15"])
+
+        def confirm(c, b=b):
+            d = c.desc or {}
+            key = (c.profile, d.get("specimen"), d.get("structure"), (d.get("damage") or {}).get("op"))
+            return hang.confirm(b, "C06", c, key, budget=40 if tier == "quick" else 90, extra_sig=lab_crash_sig(c))
+
+        rep.add_cases(cases, crash_sig=lab_crash_sig, hang_confirm=confirm)
+        rep.errors += errors
+        rep.obs_inc(f"damage_cases_run.{profile}", len(cases))
+    rep.exhaustive = (tier == "thorough")
+    rep.note("exhaustive_scope", "thorough: every byte x 3 masks and every truncation length of the four small specimens" if tier == "thorough" else "sampled")
+    return rep.finish()
+
+
+PROPS = {"C04": run_C04, "C05": run_C05, "C06": run_C06, "C01": run_C01, "C02": run_C02, "C03": run_C03, "C10": run_C10, "C11": run_C11, "C12": run_C12, "C13": run_C13,
          "C14": run_C14, "C15": run_C15, "C16": run_C16}
 
 
